@@ -20,7 +20,10 @@ RULE = ('histories of 2-40 BeartypeConf(**kw) constructions drawn from per-optio
         'vs str skip names, enum value ints), in "valid first" and "look-alike first" orders, each history in a '
         'forked child (pristine memo); per construction the outcome (object / BeartypeConfParamException) must be the '
         'function of its own kwargs given by the validity predicate; plus identity under key order, threads, '
-        '**conf.kwargs round trip, ==/hash coherence, read-back; distinct by the history\'s kwargs sequence; '
+        '**conf.kwargs round trip, ==/hash coherence, read-back; every other valid configuration is then used '
+        '(decorated functions, dataclasses decorated in both orders, accepted and rejected arguments and fields, '
+        'statement checks) and at the end of the history every configuration is compared with its snapshot at '
+        'creation (kwargs, repr, hash, round trip); distinct by the history\'s kwargs sequence; '
         'non-trivial = the history contains a look-alike or invalid value')
 
 
@@ -163,9 +166,63 @@ DEFAULTS = dict(
     violation_verbosity=BeartypeViolationVerbosity.DEFAULT)
 
 
+def use_conf(conf):
+    """Ordinary use of a configuration: functions, classes, dataclasses (decorated in both orders), statement-level
+    checks; accepted and rejected values.  What the uses answer is other checks' business: nothing is judged here."""
+    import contextlib
+    import dataclasses
+    import io
+    import warnings
+    from beartype import beartype
+    from beartype.door import die_if_unbearable, is_bearable
+
+    def attempt(fn):
+        try:
+            return fn()
+        except Exception:   # noqa
+            return None
+    with contextlib.redirect_stdout(io.StringIO()), warnings.catch_warnings():
+        warnings.simplefilter('ignore')
+
+        def uses():
+            @beartype(conf=conf)
+            def f(a: int, b: list[str] = ()) -> int:
+                return a
+            attempt(lambda: f(1))
+            attempt(lambda: f('x'))
+            attempt(lambda: f(1, [2]))
+
+            @beartype(conf=conf)
+            @dataclasses.dataclass
+            class Rec:
+                n: int
+                tags: list[str] = dataclasses.field(default_factory=list)
+
+                def bump(self, by: int) -> int:
+                    return self.n + by
+            attempt(lambda: Rec(1).bump(1))
+            attempt(lambda: Rec(1).bump('x'))
+            attempt(lambda: Rec('bad'))
+            attempt(lambda: setattr(Rec(2), 'n', 'bad'))
+            attempt(lambda: setattr(Rec(2), 'n', 3))
+
+            def late():
+                @dataclasses.dataclass
+                @beartype(conf=conf)
+                class Rec2:
+                    n: int
+                Rec2('bad')
+            attempt(late)
+            attempt(lambda: is_bearable([1], list[str], conf=conf))
+            attempt(lambda: die_if_unbearable([1], list[str], conf=conf))
+            attempt(lambda: die_if_unbearable(['a'], list[str], conf=conf))
+        attempt(uses)
+
+
 def run_history(hist):
     """Run in the forked child; returns (violations, counters)."""
     viols, cnt = [], {}
+    snaps = []         # (where, conf, kwargs at creation, repr at creation, hash at creation)
 
     def bump(k, n=1):
         cnt[k] = cnt.get(k, 0) + n
@@ -239,6 +296,27 @@ def run_history(hist):
             viols.append(('kwargs-roundtrip-raises', f'{where}: BeartypeConf(**conf.kwargs) raised {type(e).__name__}: {short(e, 160)}'))
         bump('roundtrips')
         made.append((kw, conf))
+        if not any(c is conf for _, c, _, _, _ in snaps):
+            snaps.append((where, conf, dict(conf.kwargs), repr(conf), hash(conf)))
+        if step % 2 == 0:
+            use_conf(conf)
+            bump('confs_used')
+    # a configuration is a value: using it changes nothing about it
+    for where, conf, kwargs0, repr0, hash0 in snaps:
+        bump('rechecked_after_use')
+        changed = sorted(o for o in set(kwargs0) | set(conf.kwargs) if o not in conf.kwargs or o not in kwargs0
+                         or conf.kwargs[o] is not kwargs0[o] and conf.kwargs[o] != kwargs0[o])
+        if changed:
+            viols.append(('kwargs-changed-after-use', f'{where}: after the history, conf.kwargs differs from what it was at creation in {changed}: '
+                                                      f'{short({o: conf.kwargs.get(o) for o in changed}, 200)}'))
+        elif repr(conf) != repr0 or hash(conf) != hash0:
+            viols.append(('repr-or-hash-changed-after-use', f'{where}: repr/hash differ from what they were at creation'))
+        else:
+            try:
+                if BeartypeConf(**conf.kwargs) is not conf:
+                    viols.append(('kwargs-roundtrip-not-identical-after-use', f'{where}: BeartypeConf(**conf.kwargs) is not conf any more'))
+            except Exception as e:   # noqa
+                viols.append(('kwargs-roundtrip-raises-after-use', f'{where}: {type(e).__name__}: {short(e, 160)}'))
     return viols, cnt
 
 
